@@ -68,7 +68,11 @@ def handleTile (inp out : Toks) : String :=
         showTiles mch, showTiles (mch.map parent), b2s (contains t u), b2s (contains u t),
         showTile msp, showTile mrmin, showTile mrmax ]
     let got := " ".intercalate out
-    let fin (s : String) : String := if s.startsWith "propfail" || model == got then s else "diff " ++ model
+    -- a `propfail` outranks a `diff` but does not hide it
+    let fin (s : String) : String :=
+      if model == got then s
+      else if s.startsWith "propfail" then s ++ " | diff " ++ model
+      else "diff " ++ model
     fin <|
     match (do
       let (v, o) ← nat out
@@ -218,6 +222,78 @@ def handleConsts (out : Toks) : String :=
     if want.map Float.toBits == l then "ok consts" else "diff " ++ " ".intercalate (want.map fbits)
   | none => "bad consts"
 
+/-! ### Rounding windows of the `at` clauses — error analysis
+
+  `u = 2^-53` (unit round-off of float64), `n = 2^z`, `fx*`/`fy*` the EXACT tile fractions of the
+  float point `(lon, lat)`, `fx`/`fy` the ones `Fraction` computes.  All windows are in tile units and
+  therefore carry the factor `2^z`: a fixed window (the former `1e-9`) is ~100× too small at zoom 30.
+
+  LONGITUDE (no libm; everything below is decided exactly, in `Rat`).
+  `fx = fl(fl(lon/360) + 0.5) · n`, the product by a power of two being exact.  `|lon/360| ≤ 1/2`, so
+  the quotient is off by at most half an ulp of `[1/4,1/2)`, `u/4`; the sum lies in `[0,1]` and is off
+  by at most `u/2`.  Hence `|fx − fx*| ≤ (3/4)·u·n < 2^(z−53) =: Wx`.
+  `At` takes `tx = ⌊fx⌋` (clamped to the last column), so `tx − Wx < fx*`.  `Bound` computes the west
+  edge as `fl(360·(tx/n − 1/2))` with an EXACT inner quotient and difference (`tx < 2^31`), i.e. the
+  correctly rounded true edge; for a float `lon`, `lon < bminx` therefore means `fx* < tx`.  (The east
+  side cannot fail: `lon > bmaxx` gives `lon/360 > (tx+1)/n − 1/2`, both roundings are monotone and
+  `(tx+1)/n − 1/2`, `(tx+1)/n` are floats, so `fx ≥ tx + 1`.)
+  So a CORRECT `At`/`Bound` pair violates "the bound contains the longitude" exactly when
+  `0 < tx − fx* ≤ Wx` and `lon < bminx`: the sum `lon/360 + 0.5` rounded UP onto the column edge.
+  That is a violation of the property as it is written (no libm involved, `At(p,z).Bound().Contains(p)`
+  is false for an in-range point next to a tile edge — e.g. every longitude in `(−2·10⁻¹⁴, 0)` at every
+  zoom ≥ 1): it is reported, as `propfail at-bound-lon column-edge-rounding` (finding
+  C13-at-lon-edge-rounding), and ONLY in that exact situation, decided with exact rationals, and only
+  when the Float twin agrees with the implementation.  A column that is off by more than the rounding of
+  `At` allows (`tx − fx* > Wx`, or `lon > bmaxx`) is the plain `propfail at-bound-lon`.
+
+  LATITUDE (through Go's `Sin`/`Log` in `Fraction` and `Exp`/`Atan` in `ToGeo`; assumed error of each
+  libm call ≤ 2 ulp).  `c = cos φ`, `s = sin φ`, `Y(φ) = 1/2 − ln((1+s)/(1−s))/(4π)`, `dY/ds = −1/(2π c²)`,
+  `dY/dφ° = −1/(360 c)`; unclamped latitudes have `c ≥ 0.0872`.
+   * `Fraction`: the argument `φ·π/180` carries ≤ 3u relative (π, ·, /), i.e. ≤ 4.5u absolute, which
+     moves `s` by ≤ 4.5u·c; `Sin` adds ≤ 2u: `δs ≤ 6.5u`, i.e. `δY ≤ 6.5u/(2π c²) ≤ 1.1u/c²`.
+     `1 − s` is exact for `s ≥ 1/2` (else ≤ u relative), `1 + s`, the quotient: ≤ u relative each, `Log`
+     ≤ 2u relative of a value ≤ 2π: `δ ln ≤ 3u + 4πu`, divided by 4π: ≤ 1.3u.  The quotient by `−2π`
+     (constant ≤ u/2, division ≤ u, of a value ≤ 1/2) ≤ 0.8u, the final sum ≤ u/2.
+     Together `δY_fraction ≤ (1.1/c² + 2.6)·u`.
+   * `ToGeo` (the edge latitudes of `Bound`): the argument of `Exp` is off by ≤ 13u, `Exp` adds 2u
+     relative, `Atan` turns a relative 15u of its argument into ≤ 7.5u and adds ≤ 2u·π/2; times 2, times
+     `180/π`, three more roundings and `− 90` (half-ulp 64u): ≤ 1650u degrees, i.e. `δY_bound ≤ 4.6u/c`.
+  Sum `≤ (1.1 + 2.6 + 4.6)·u/c² = 8.3u/c²`; with a safety factor ≈ 2 the window is
+      `Wy(z, φ) = 16·u·2^z / c² = 2^(z−49) / cos²φ`   tiles
+  (2.4·10⁻⁷ tile at zoom 20, 2.5·10⁻⁴ tile at zoom 30, both at |φ| = 85°; the largest deviation a
+  2·10⁷-sample search found at zoom 30 is 2.5·10⁻⁶ tile).  A point whose computed `fy` is within `Wy` of a
+  row edge may legitimately be given either adjacent row, and the float bound of that row may miss the
+  latitude by at most `2·Wy` tiles, i.e. `tolLat = 2·Wy/2^z·360·c = 2^(−48)·360/cos φ` degrees
+  (≤ 1.5·10⁻¹¹°; one tile row at zoom 30 is ≥ 2.9·10⁻⁸° high).  Such a case is `skip near-tile-edge`
+  when the exact float containment fails within `tolLat`, judged normally when it holds; beyond
+  `tolLat`, or farther than `Wy` from an edge, a latitude outside the bound is `propfail at-bound-lat` —
+  so a genuinely wrong row (off by a whole tile) is always a failure.
+-/
+
+/-- `Wx = 2^(z−53)` tiles, as an exact rational. -/
+def lonWindow (z : Nat) : Rat := (2 : Rat) ^ z / (2 : Rat) ^ 53
+
+/-- `cos` of a latitude in degrees (tolerance computation only; its own rounding is irrelevant). -/
+def cosDeg (lat : Float) : Float := Float.cos (lat * 3.141592653589793 / 180.0)
+
+/-- `Wy(z, φ) = 2^(z−49) / cos²φ` tiles. -/
+def latWindow (z : Nat) (lat : Float) : Float :=
+  let c := cosDeg lat
+  Float.ofNat (2 ^ z) / 562949953421312.0 / (c * c)
+
+/-- `tolLat(φ) = 2^(−48)·360 / cos φ` degrees. -/
+def latTol (lat : Float) : Float := 360.0 / 281474976710656.0 / cosDeg lat
+
+/-- Is the failed longitude containment EXACTLY the documented rounding of `lon/360 + 0.5` onto the
+    west edge of the found column (see the analysis above)?  Exact rational arithmetic. -/
+def lonEdgeRounding (lonb : UInt64) (z tx : Nat) : Bool :=
+  match bitsToRat? lonb with
+  | none => false
+  | some q =>
+    let fxq : Rat := (q / 360 + 1 / 2) * (2 : Rat) ^ z
+    let d : Rat := (tx : Rat) - fxq
+    decide (0 < d) && decide (d ≤ lonWindow z)
+
 /-- `at lon lat z => fx fy tx ty bminx bminy bmaxx bmaxy ctx cty cx cy cfx cfy T…` -/
 def handleAt (inp out : Toks) : String :=
   match (do
@@ -239,7 +315,6 @@ def handleAt (inp out : Toks) : String :=
     let lon := Float.ofBits lonb
     let lat := Float.ofBits latb
     let fy := Float.ofBits fyb
-    let n := 2^z
     -- the Float twin: Fraction, At, Bound of the found tile, its Center, Fraction and At of the centre
     let E := mkEnv tbl
     let ll : Pt OF := ⟨ofB lonb, ofB latb⟩
@@ -255,35 +330,103 @@ def handleAt (inp out : Toks) : String :=
       | none =>
         if mt.x == tx && mt.y == ty && mct.x == ctx && mct.y == cty then none
         else some s!"diff tile={mt.x},{mt.y} centre-tile={mct.x},{mct.y}"
+    -- a `propfail` outranks a `diff` but never hides it: the diff is appended.  The labels of the two
+    -- known findings are chosen below only when `agree = none`.
     let fin (s : String) : String :=
-      if s.startsWith "propfail" then s else
       match agree with
       | none => s
-      | some d => d
+      | some d => if s.startsWith "propfail" then s ++ " | " ++ d else d
+    let same := agree.isNone
     fin <|
+    -- zooms beyond the property's quantifier (0..30): correspondence only.  From zoom 32 on
+    -- `uint32(1) << z` is 0 (the `max != 0` guard of `At`) and `Fraction`'s `maxtiles` is 0.
+    if z > 30 then (if z ≥ 32 then "ok at-zoom-beyond shift-wrapped" else "ok at-zoom-beyond") else
+    let n := 2^z
     -- property: the tile is valid
     if !(tx < n && ty < n) then "propfail at-valid" else
-    match b with
-    | [bminx, bminy, bmaxx, bmaxy] =>
+    match b, c with
+    | [bminx, bminy, bmaxx, bmaxy], [_, cyb, _, _] =>
       let bminx := Float.ofBits bminx; let bminy := Float.ofBits bminy
       let bmaxx := Float.ofBits bmaxx; let bmaxy := Float.ofBits bmaxy
-      if !(bminx ≤ lon && lon ≤ bmaxx) then "propfail at-bound-lon" else
+      -- longitude clause: `none` = holds; the label of finding C13-at-lon-edge-rounding only in the exact
+      -- documented situation (see the analysis above), model and implementation in agreement
+      let lonKnown := "propfail at-bound-lon column-edge-rounding"
+      let lonV : Option String :=
+        if bminx ≤ lon && lon ≤ bmaxx then none
+        else if same && lon < bminx && lon ≤ bmaxx && lonEdgeRounding lonb z tx then some lonKnown
+        else some "propfail at-bound-lon"
       let clamped := lat < -85.0511 || lat > 85.0511
-      -- centre of the found tile; beyond the documented clamp latitude `At` snaps to the edge row
-      let clat := (bminy + bmaxy) / 2.0
-      let cmb := if clat.abs > 85.0511 then "propfail center-maps-back polar-clamp" else "propfail center-maps-back"
-      -- the y fraction goes through sin/log: only judged away from tile edges
-      let nearEdge := (fy - fy.round).abs < 1e-9
-      if clamped then
-        (if lat > 85.0511 && ty != 0 then "propfail at-clamp-north"
-         else if lat < -85.0511 && ty != n - 1 then "propfail at-clamp-south"
-         else if ctx != tx || cty != ty then cmb
-         else "ok clamped")
-      else if nearEdge then "skip near-tile-edge"
-      else if !(bminy ≤ lat && lat ≤ bmaxy) then "propfail at-bound-lat"
-      else if ctx != tx || cty != ty then cmb
-      else "ok at"
-    | _ => "bad at-bound"
+      -- centre of the found tile, as the implementation computed it.  Beyond the documented clamp
+      -- latitude `At` snaps to the edge row: known finding C13-polar-clamp-center, whose label is given
+      -- ONLY in the documented situation — centre latitude beyond the clamp, tile not in the edge row,
+      -- centre sent to the edge row OF THE SAME COLUMN, model and implementation in agreement.
+      let clat := Float.ofBits cyb
+      let polar :=
+        same && ctx == tx &&
+          ((clat > 85.0511 && ty != 0 && cty == 0) || (clat < -85.0511 && ty != n - 1 && cty == n - 1))
+      let polarKnown := "propfail center-maps-back polar-clamp"
+      let cmb := if polar then polarKnown else "propfail center-maps-back"
+      let centreOk := ctx == tx && cty == ty
+      -- latitude and centre clauses
+      let rest : String :=
+        if clamped then
+          (if lat > 85.0511 && ty != 0 then "propfail at-clamp-north"
+           else if lat < -85.0511 && ty != n - 1 then "propfail at-clamp-south"
+           else if !centreOk then cmb
+           else "ok clamped")
+        else
+          -- the y fraction goes through sin/log: judged exactly away from row edges, within `tolLat` next to one
+          let nearEdge := (fy - fy.round).abs < latWindow z lat
+          let inLat := bminy ≤ lat && lat ≤ bmaxy
+          let tol := latTol lat
+          let inLatTol := bminy - tol ≤ lat && lat ≤ bmaxy + tol
+          if !inLat && !(nearEdge && inLatTol) then "propfail at-bound-lat"
+          else if !centreOk then cmb
+          else if !inLat then "skip near-tile-edge"
+          else if nearEdge then "ok at row-edge"
+          else "ok at"
+      -- a failure that is NOT a known finding is never absorbed by the label of one
+      (match lonV with
+       | none => rest
+       | some l =>
+         if l != lonKnown then l
+         else if rest.startsWith "propfail" && rest != polarKnown then rest
+         else l)
+    | _, _ => "bad at-bound"
+
+/-- The hypotheses of `Orb.TileGeo.neighbours_share_edges_any` at carrier `Float` (all of them
+    pointwise in the tile), checked bit for bit; `some name` = the first one that fails.  The clamp
+    hypotheses are only meaningful (and only checked) for rows inside the pyramid, `y + 1 ≤ 2^z ≤ 2^31`. -/
+def floatHypFails (t : Tile) : Option String :=
+  let E := mkEnv #[]
+  let eq (a b : Float) : Bool := a.toBits == b.toBits
+  let x := (E.ofNat t.x).v
+  let y := (E.ofNat t.y).v
+  if !eq (E.ofNat (t.x + 1)).v (x + 1) then some "succ-x"
+  else if !eq (E.ofNat (t.y + 1)).v (y + 1) then some "succ-y"
+  else if !eq (x + 1 + 0) (x + 1) then some "add0-x"
+  else if !eq (y + 1 + 0) (y + 1) then some "add0-y"
+  else if !eq (x + 1 - 0) (x + 1) then some "sub0-x"
+  else if !eq (y + 1 - 0) (y + 1) then some "sub0-y"
+  else if t.z ≤ 31 && t.y + 1 ≤ 2 ^ t.z && (maxTiles32 E t.z).v < y + 1 then some "noclampN"
+  else if y + 1 < 0 then some "noclamp0"
+  else none
+
+/-- Executable statement of "neighbours share their edge coordinates exactly, the children's bounds
+    tile the parent's" on the 7 bounds the implementation returned (layout: minx miny maxx maxy). -/
+def nbrSpec (fs : List UInt64) : String :=
+  let g (i : Nat) : UInt64 := fs.getD i 0
+  let tb := 0; let rb := 4; let db := 8; let c0 := 12; let c1 := 16; let c2 := 20; let c3 := 24
+  if g (tb+2) != g (rb+0) then "propfail neighbour-x-edge" else
+  if g (tb+1) != g (db+3) then "propfail neighbour-y-edge" else
+  -- children: c0 = (2x,2y) top-left, c1 = (2x+1,2y), c2 = (2x+1,2y+1), c3 = (2x,2y+1)
+  if g (c0+0) != g (tb+0) || g (c3+0) != g (tb+0) then "propfail children-left" else
+  if g (c1+2) != g (tb+2) || g (c2+2) != g (tb+2) then "propfail children-right" else
+  if g (c0+3) != g (tb+3) || g (c1+3) != g (tb+3) then "propfail children-top" else
+  if g (c2+1) != g (tb+1) || g (c3+1) != g (tb+1) then "propfail children-bottom" else
+  if g (c0+2) != g (c1+0) || g (c3+2) != g (c2+0) then "propfail children-mid-x" else
+  if g (c0+1) != g (c3+3) || g (c1+1) != g (c2+3) then "propfail children-mid-y" else
+  "ok nbr"
 
 /-- `nbr x y z => tb(4) rb(4) db(4) c0(4) c1(4) c2(4) c3(4) T…`:
     bounds of the tile, its right and lower neighbours, and its four children. -/
@@ -299,25 +442,19 @@ def handleNbr (inp out : Toks) : String :=
     let E := mkEnv tbl
     let tiles : List Tile := [t, ⟨add32 t.x 1, t.y, t.z⟩, ⟨t.x, add32 t.y 1, t.z⟩] ++ children t
     let agree := cmpAll (tiles.flatMap fun u => bnd4 (bound E u 0)) fs
+    -- a `propfail` outranks a `diff` but does not hide it
     let fin (s : String) : String :=
-      if s.startsWith "propfail" then s else
       match agree with
       | none => s
-      | some d => d
+      | some d => if s.startsWith "propfail" then s ++ " | " ++ d else d
+    let spec := nbrSpec fs
     fin <|
-    let g (i : Nat) : UInt64 := fs.getD i 0
-    -- layout of a bound: minx miny maxx maxy
-    let tb := 0; let rb := 4; let db := 8; let c0 := 12; let c1 := 16; let c2 := 20; let c3 := 24
-    if g (tb+2) != g (rb+0) then "propfail neighbour-x-edge" else
-    if g (tb+1) != g (db+3) then "propfail neighbour-y-edge" else
-    -- children: c0 = (2x,2y) top-left, c1 = (2x+1,2y), c2 = (2x+1,2y+1), c3 = (2x,2y+1)
-    if g (c0+0) != g (tb+0) || g (c3+0) != g (tb+0) then "propfail children-left" else
-    if g (c1+2) != g (tb+2) || g (c2+2) != g (tb+2) then "propfail children-right" else
-    if g (c0+3) != g (tb+3) || g (c1+3) != g (tb+3) then "propfail children-top" else
-    if g (c2+1) != g (tb+1) || g (c3+1) != g (tb+1) then "propfail children-bottom" else
-    if g (c0+2) != g (c1+0) || g (c3+2) != g (c2+0) then "propfail children-mid-x" else
-    if g (c0+1) != g (c3+3) || g (c1+1) != g (c2+3) then "propfail children-mid-y" else
-    "ok nbr"
+    if spec.startsWith "propfail" then spec else
+    -- the POINTWISE hypotheses of `neighbours_share_edges_any`, evaluated in float64 (bitwise) for this
+    -- tile: they are what makes that theorem speak about the Float twin compared above
+    match floatHypFails t with
+    | some h => "diff float-hyp " ++ h
+    | none => spec
 
 /-- `bnd x y z buffer => buffered(4) plain(4) T…`: `Tile.Bound(buffer)` with its two clamps. -/
 def handleBnd (inp out : Toks) : String :=
